@@ -34,7 +34,7 @@ def plan(tier, seed):
 def conclude(agg):
     c = agg['counters']
     r = [f'pair kind {k} was never compared' for k in PAIRS if c.get('pairs/' + k, 0) == 0]
-    r += [f'monitor counter {k} is zero' for k in ('effective_pairs', 'reached/dataset-mode0', 'reached/dataset-mode1') if c.get(k, 0) == 0]
+    r += [f'monitor counter {k} is zero' for k in ('effective_pairs', 'reached/dataset-mode0', 'reached/dataset-mode1', 'reused_gpu_cpu_pairs') if c.get(k, 0) == 0]
     return r
 
 
@@ -128,6 +128,15 @@ def check_case(case, ctx):
         # (c) CPU vs GPU-kernel path
         g = run(cls='cuda', reuse=case['c_reuse'], strip=case['strip_forks'])
         gref = run(reuse=case['c_reuse'], strip=case['strip_forks'])
+        if rr.random() < 0.5:
+            # both objects are used again with the real stimulus after an unrelated one (what an earlier batch left behind must not matter)
+            other = WC.materialize(dict(case, stim_seed=case['stim_seed'] + 17, multi=True), b=b).stim
+            for sim_ in (g, gref):
+                W.apply_stim(sim_, b, other); sim_.c_prop(); sim_.c_to_s()
+                W.apply_stim(sim_, b, r.stim); sim_.c_prop(); sim_.c_to_s()
+            ctx.count('reused_gpu_cpu_pairs')
+            if not eq('gpu', np.asarray(gref.s)[3:], rs[3:] if not (case['c_reuse'] or case['strip_forks']) else np.asarray(gref.s)[3:], 'results of a re-used WaveSim vs a fresh one'):
+                return
         if not eq('gpu', np.asarray(g.s)[3:], np.asarray(gref.s)[3:], 'captured results of WaveSim and WaveSimCuda'):
             return
         if not case['c_reuse']:
